@@ -240,10 +240,21 @@ func (w *World) exec(g *G, fr *Frame, instr ssa.Instruction) {
 	case *ssa.Next:
 		w.execNext(g, fr, i)
 	case *ssa.Call:
-		w.execCall(g, fr, i, i.Common(), func(res Value) {
+		fin := func(res Value) {
 			w.setReg(fr, i, res)
 			fr.pc++
-		})
+		}
+		if w.cfg.Gran >= 3 && !w.inAtEnd {
+			// finest granularity: every call of a function with a body is a preemption point (used by
+			// small directed harnesses to expose unsynchronised sharing between two goroutines)
+			if f, ok := i.Common().Value.(*ssa.Function); ok && f.Blocks != nil && w.in.intrinsics[f.String()] == nil {
+				op := &syncOp{desc: "call " + f.Name(), ready: func() bool { return true }}
+				op.exec = func() { w.execCall(g, fr, i, i.Common(), fin) }
+				w.syncPoint(g, op, true)
+				return
+			}
+		}
+		w.execCall(g, fr, i, i.Common(), fin)
 	case *ssa.Defer:
 		fn, args, ok := w.resolveCall(g, fr, i.Common())
 		if !ok {
